@@ -1956,6 +1956,11 @@ SDwritedata(int32  sdsid,  /* IN: dataset ID */
         var->created = FALSE;
         was_created  = TRUE;
     } /* end if */
+    else if (var->data_ref == 0 && !IS_RECVAR(var) && (handle->flags & NC_NOFILL)) {
+        /* a dataset created by an earlier session that has no data yet: its first write
+           creates the data element as well and has to give it its full length */
+        var->set_length = TRUE;
+    }
 
     /* call the writeg routines if a stride is given */
     if (stride == NULL || no_strides == 1)
